@@ -6,6 +6,7 @@ package main
 
 import (
 	"fmt"
+	"time"
 
 	"verif/harness/hv"
 
@@ -54,6 +55,20 @@ func once(in hv.Val) hv.Val {
 			for _, b := range bal_slb.VerifC01Backends(brr) {
 				if b.Port-8000 == id {
 					b.SetAvail(hv.AsBool(op[2]))
+				}
+			}
+			out = append(out, hv.L{})
+		case 3:
+			brr.SetSlowStart(int(hv.AsInt(op[1])))
+			out = append(out, hv.L{})
+		case 4:
+			bal_slb.VerifC01SetElapsed(brr, 8000+int(hv.AsInt(op[1])), time.Duration(hv.AsInt(op[2]))*time.Millisecond)
+			out = append(out, hv.L{})
+		case 5:
+			id := int(hv.AsInt(op[1]))
+			for _, b := range bal_slb.VerifC01Backends(brr) {
+				if b.Port-8000 == id {
+					b.SetRestart(true)
 				}
 			}
 			out = append(out, hv.L{})
@@ -151,7 +166,122 @@ func addPicks(r *hv.Rng, ops hv.L, k int, cur []ent, noops bool) hv.L {
 	return ops
 }
 
+// elapsed (ms) that puts a backend with target weight `final` at ramp position num/den of slow-start time T (s),
+// moved forward until 2 s of real-time jitter cannot change the truncated ramp weight
+func rampAt(T, final, num, den int) int {
+	e := T * 1000 * num / den
+	if final > 0 {
+		for (final*e)%(1000*T)+final*2000 >= 1000*T && (final*e)/(1000*T) < final {
+			e += 500
+		}
+	}
+	return e
+}
+
+// slow-start histories: SetSlowStart, a backend is added by Update or restarted by the health check, the clock
+// seam places it before / inside / exactly at / after the end of its ramp, with picks in between and after
+func genSS(r *hv.Rng) (string, hv.Val) {
+	n := r.Range(1, 4)
+	cur := make([]ent, n)
+	for j := range cur {
+		cur[j] = ent{j, r.Range(1, 4)}
+	}
+	init := confVal(cur)
+	T := []int{3600, 7200, 86400}[r.Intn(3)]
+	ops := hv.L{}
+	pk := func(k int) {
+		if k > 0 {
+			ops = append(ops, hv.L{hv.I(0), hv.I(k)})
+		}
+	}
+	if r.Bool() {
+		pk(r.Range(1, 5))
+	}
+	late := r.Chance(1, 4) // the restart flag is raised while slow start is still off; SetSlowStart comes later
+	if !late {
+		ops = append(ops, hv.L{hv.I(3), hv.I(T)})
+	}
+	class := "ss-add"
+	var tid, tw int
+	if r.Chance(2, 3) {
+		// Update adds a backend (restart flag set); sometimes with weight 0 / -1
+		tid, tw = n, r.Range(1, 5)
+		if r.Chance(1, 4) {
+			tw = -r.Intn(2)
+			class = "ss-add-w0"
+		}
+		next := append(append([]ent(nil), cur...), ent{tid, tw})
+		if r.Chance(1, 3) { // others down: the new backend is the only candidate
+			for _, e := range cur {
+				if r.Chance(2, 3) {
+					ops = append(ops, hv.L{hv.I(2), hv.I(e.id), hv.I(0)})
+				}
+			}
+		}
+		ops = append(ops, hv.L{hv.I(1), confVal(next)})
+		cur = next
+	} else {
+		// health check: backend down, later back with the restart flag
+		class = "ss-restart"
+		k := r.Intn(n)
+		tid, tw = cur[k].id, cur[k].w
+		ops = append(ops, hv.L{hv.I(2), hv.I(tid), hv.I(0)})
+		pk(r.Range(0, 3))
+		if r.Chance(1, 4) { // reloaded to weight 0 while down
+			next := append([]ent(nil), cur...)
+			next[k].w = 0
+			tw = 0
+			ops = append(ops, hv.L{hv.I(1), confVal(next)})
+			cur = next
+			class = "ss-restart-w0"
+		}
+		ops = append(ops, hv.L{hv.I(5), hv.I(tid)}, hv.L{hv.I(2), hv.I(tid), hv.I(1)})
+	}
+	final := tw * 100
+	pk(r.Range(1, 3)) // consumes the restart flag: ramp starts, elapsed ~ 0
+	if late {
+		ops = append(ops, hv.L{hv.I(3), hv.I(T)})
+		pk(r.Range(1, 3))
+		class += "-late"
+	}
+	// ramp positions, increasing
+	type pos struct{ num, den int }
+	var seq []pos
+	switch r.Intn(5) {
+	case 0:
+		seq = []pos{{1, 1000}, {1, 3}, {1, 1}} // before, inside, exactly at the end
+	case 1:
+		seq = []pos{{1, 2}, {13, 10}} // inside, then late: first call after the end comes with a gap
+	case 2:
+		seq = []pos{{r.Range(1, 9), 10}, {r.Range(11, 30), 10}}
+	case 3:
+		seq = []pos{{2, 1}} // one call long after the end
+	default:
+		seq = []pos{{r.Range(1, 99), 100}, {r.Range(1, 99) + 100, 200}, {999, 1000}, {1001, 1000}}
+	}
+	for _, p := range seq {
+		ops = append(ops, hv.L{hv.I(4), hv.I(tid), hv.I(rampAt(T, final, p.num, p.den))})
+		pk(r.Range(1, 6))
+		if r.Chance(1, 8) {
+			ops = append(ops, hv.L{hv.I(3), hv.I(0)}) // slow start switched off mid-way: ramps freeze
+			pk(r.Range(1, 3))
+			ops = append(ops, hv.L{hv.I(3), hv.I(T)})
+		}
+	}
+	// after the ramp: at least two periods
+	A := sumPos(cur, map[int]bool{})
+	if A > 0 {
+		pk(2*A + r.Intn(A+1))
+	} else {
+		pk(2)
+	}
+	return class, hv.L{init, ops}
+}
+
 func gen(r *hv.Rng, i int, tier string) (string, hv.Val) {
+	if i >= 400 && r.Chance(1, 5) {
+		return genSS(r)
+	}
 	n := r.Range(1, 6)
 	if r.Chance(1, 10) {
 		n = r.Range(7, 12)
@@ -236,6 +366,20 @@ func gen(r *hv.Rng, i int, tier string) (string, hv.Val) {
 		} else {
 			ops = addPicks(r, ops, 2, next, false)
 		}
+	case mode == 8 && r.Bool(): // weight to 0 (credit reset) and back to a positive weight
+		class = "reload-zero-back"
+		ops = addPicks(r, ops, r.Intn(2*A+1), cur, false)
+		k := r.Intn(len(cur))
+		z := append([]ent(nil), cur...)
+		z[k].w = -r.Intn(2)
+		ops = append(ops, hv.L{hv.I(1), confVal(z)})
+		Az := sumPos(z, down)
+		ops = addPicks(r, ops, r.Intn(2*Az+2), z, false)
+		back := append([]ent(nil), z...)
+		back[k].w = r.Range(1, 6)
+		ops = append(ops, hv.L{hv.I(1), confVal(back)})
+		Ab := sumPos(back, down)
+		ops = addPicks(r, ops, Ab+r.Intn(Ab+1), back, false)
 	default: // availability flips
 		class = "avail"
 		k0 := r.Intn(2*A + 1)
